@@ -350,7 +350,7 @@ func connWriteEffects(c *core.Ctx, R string) {
 		c.Check(R, "webtransport.(*messageWriter).ReadFrom/EOF→nil", u.Pos(), okEOF, "the source's io.EOF (and only it) is turned into a nil error")
 	}
 	// ---- ncopy ----
-	if u := c.Fn(R, "webtransport.(*messageWriter).ncopy"); u != nil {
+	if u := c.Fn(R, "webtransport.(*messageWriter).ncopy"); u != nil && localAnchors(c, R, u, "n") {
 		noRoom := func(x *core.Unit, br core.Branch) int {
 			cmp, ok := x.BranchCmp(br)
 			if !ok || cmp.Val == nil || cmp.Val.ExactString() != "0" || !isLocalAnyDepth(x, cmp.X, "n") {
@@ -436,7 +436,7 @@ func connWriteEffects(c *core.Ctx, R string) {
 // connReadEffects — effect table of NextReader / ReadMessage / the close-error predicates.
 func connReadEffects(c *core.Ctx, R string) {
 	c.Rule(R, "effect table of the WebTransport read path: NextReader closes and forgets the previous reader, forgets the previous messageReader and restarts the per-message length, loops while readErr == nil, stores hideTempErr(err) in readErr and leaves the loop on an advanceFrame error, hands a reader out exactly for Text / Binary frames (c.reader = the fresh messageReader), and on every error exit increments the repeated-read counter, panicking only at >= 1000; messageReader.Read forgets itself when the frame is exhausted; ReadMessage returns NextReader's error before reading; IsCloseError is true exactly when a listed code equals the error's, IsUnexpectedCloseError false exactly then and true for every other close error; hideTempErr rewraps only net.Error values; NewConn fills in the default buffer sizes only when none was given and allocates a write buffer only when neither a buffer nor a pool was supplied")
-	if u := c.Fn(R, wtNextReader); u != nil {
+	if u := c.Fn(R, wtNextReader); u != nil && localAnchors(c, R, u, "frameType") {
 		g := u.Graph()
 		info := u.Info()
 		failed := gErrNonNil()
@@ -637,7 +637,7 @@ func connReadEffects(c *core.Ctx, R string) {
 		c.Check(R, sp.key+"/truth-table", u.Pos(), okMatch && okOther && okNotCE, keyf("listed code ⇒ %v: %v; other close error ⇒ %v: %v; not a close error ⇒ false: %v", sp.onMatch, okMatch, !sp.onMatch, okOther, okNotCE))
 	}
 	// ---- NewConn defaults ----
-	if u := c.Fn(R, "webtransport.NewConn"); u != nil {
+	if u := c.Fn(R, "webtransport.NewConn"); u != nil && localAnchors(c, R, u, "br", "writeBuf", "writeBufferPool") {
 		g := u.Graph()
 		info := u.Info()
 		noBr := gNilLocal("br", false)
